@@ -321,29 +321,34 @@ class Simulator(Computer, _mixins.CodeMixin):
             if not is_instruction_resolved:
                 instruction._resolve_params(outcomes=branch.outcome)
 
-            if self.config.validate:
-                instruction._validate(self._connector)
+            try:
+                if self.config.validate:
+                    instruction._validate(self._connector)
 
-            current_shots = int(branch.frequency * shots) if shots is not None else None
+                current_shots = (
+                    int(branch.frequency * shots) if shots is not None else None
+                )
 
-            subbranches = simulation_step(
-                branch.state,
-                instruction,
-                shots=current_shots,
-            )
+                subbranches = simulation_step(
+                    branch.state,
+                    instruction,
+                    shots=current_shots,
+                )
 
-            for subbranch in subbranches:
-                # NOTE: This updates the branches with the previous outcome, and the
-                # frequency with the frequencies of previous measurements, as the
-                # branches returned by the calculation only contain the outcome and
-                # frequency corresponding to the current measurement.
-                subbranch.outcome = tuple([*branch.outcome, *subbranch.outcome])
-                subbranch.frequency *= branch.frequency
+                for subbranch in subbranches:
+                    # NOTE: This updates the branches with the previous outcome, and
+                    # the frequency with the frequencies of previous measurements, as
+                    # the branches returned by the calculation only contain the outcome
+                    # and frequency corresponding to the current measurement.
+                    subbranch.outcome = tuple([*branch.outcome, *subbranch.outcome])
+                    subbranch.frequency *= branch.frequency
 
-            new_branches.extend(subbranches)
-
-            if not is_instruction_resolved:
-                instruction._unresolve_params()
+                new_branches.extend(subbranches)
+            finally:
+                # NOTE: The caller's instruction must get its unresolved parameters
+                # back even if the validation or the simulation step raises.
+                if not is_instruction_resolved:
+                    instruction._unresolve_params()
 
         return new_branches
 
@@ -355,26 +360,35 @@ class Simulator(Computer, _mixins.CodeMixin):
         for instruction in instructions:
             original_modes = instruction.modes
 
-            if not hasattr(instruction, "modes") or instruction.modes is tuple():
-                instruction.modes = active_modes
+            try:
+                if not hasattr(instruction, "modes") or instruction.modes is tuple():
+                    instruction.modes = active_modes
 
-            if any(m not in active_modes for m in instruction.modes):
-                inactive_modes = {m for m in instruction.modes if m not in active_modes}
-                raise ValueError(
-                    f"Some modes of instruction {instruction} are not active: "
-                    f"{inactive_modes}."
-                )
+                if any(m not in active_modes for m in instruction.modes):
+                    inactive_modes = {
+                        m for m in instruction.modes if m not in active_modes
+                    }
+                    raise ValueError(
+                        f"Some modes of instruction {instruction} are not active: "
+                        f"{inactive_modes}."
+                    )
 
-            instruction.modes = Simulator._remap_modes(active_modes, instruction.modes)
-
-            branches = self._apply_instruction_to_branches(branches, instruction, shots)
-
-            if isinstance(instruction, Measurement):
-                active_modes = Simulator._delete_modes_from_active(
+                instruction.modes = Simulator._remap_modes(
                     active_modes, instruction.modes
                 )
 
-            instruction._modes = original_modes
+                branches = self._apply_instruction_to_branches(
+                    branches, instruction, shots
+                )
+
+                if isinstance(instruction, Measurement):
+                    active_modes = Simulator._delete_modes_from_active(
+                        active_modes, instruction.modes
+                    )
+            finally:
+                # NOTE: The caller's instruction must get its modes back even if the
+                # execution of the instruction raises.
+                instruction._modes = original_modes
 
         return Result(config=self.config, branches=branches, shots=shots)
 
